@@ -32,6 +32,14 @@ def cases(rng, tier):
             for i in range(128):
                 if op in (0, 1, 2, 4, 5) and rc in list(range(11)) + [16] or i % 16 == 3:
                     out.append("BUILDHDR %x %x %x %x" % (rng.below(65536), op, rc, flagset(i)))
+    # the response code of a message with EDNS data: low nibble from the header word, upper 8 bits from the OPT record's
+    # extended-RCODE octet - and from nothing else (in particular not from the VERSION octet next to it)
+    for w in [rc | (op << 11) | fl for rc in range(16) for (op, fl) in ((0, 0), (5, 0x8400), (0, 0x8180))]:
+        for ext in (0, 1, 0x10, 0xF0):
+            for ver in (0, 1, 15, 16, 17, 0x20, 0x80, 0xFF):
+                hdr = b"\x12\x34" + w.to_bytes(2, "big") + b"\x00\x00\x00\x00\x00\x00\x00\x01"
+                opt = b"\x00\x00\x29\x04\xd0" + bytes([ext, ver, 0, 0]) + b"\x00\x00"
+                out.append("PARSE " + (hdr + opt).hex())
     for n in range(0, 14):
         for fill in (b"\x00", b"\xff", b"\x80\x01", b"\x7b\xb0"):
             buf = (fill * 14)[:n]
@@ -101,6 +109,17 @@ def oracle(case, out):
             expb = (idv.to_bytes(2, "big") + (w & 0xFFBF).to_bytes(2, "big") + bytes(8)).hex()
             if p.split()[-1] != expb:
                 return "re-serialised header for word %04x: got %s expected %s" % (w, p.split()[-1], expb)
+        return None
+    if t[0] == "PARSE":
+        d = bytes.fromhex(t[1])
+        w, ext, ver = int.from_bytes(d[2:4], "big"), d[17], d[18]
+        if not out.startswith("OK PKT "):
+            return "a message with an OPT record (flags word %04x) was rejected: %r" % (w, out[:80])
+        f = out.split()
+        want = rcdisc((ext << 4) | (w & 15))
+        if int(f[4], 16) != want or int(f[3], 16) != opdisc((w >> 11) & 15) or f[5] != bits7(w):
+            return ("flags word %04x with OPT extended-rcode %02x version %02x: parsed opcode/rcode/flags %s %s %s, expected %x %x %s"
+                    % (w, ext, ver, f[3], f[4], f[5], opdisc((w >> 11) & 15), want, bits7(w)))
         return None
     if t[0] == "PEEK":
         buf = bytes.fromhex(t[1]) if t[1] != "-" else b""
